@@ -34,7 +34,7 @@ def bounds(tier):
 def cases(tier, seed):
     q = tier == "quick"
     depth = 3 if q else 4
-    dig = world.dig_shapes(4, 6 if q else 8) + world.named_shapes()
+    dig = world.dig_shapes(4, 6 if q else 8) + world.named_shapes() + ([] if q else [x for x in world.dig_shapes(5, 6, selfloops=False) if x[0] == 5])
     seen = set()
     for idx, shp in enumerate(dig):
         if shp in seen:
